@@ -3,8 +3,9 @@
 # /verif/.venv = venv of /venv's interpreter + .pth pointing at /venv's site-packages
 # + z3-solver, crosshair-tool, cvc5 from the offline wheelhouse.
 set -e
-V=/verif/.venv
-cd /verif
+HERE="$(cd "$(dirname "$0")" && pwd)"
+V="$HERE/.venv"
+cd "$HERE"
 if [ -x $V/bin/python ] && $V/bin/python -c "import z3, crosshair, numpy" 2>/dev/null; then
   exit 0
 fi
